@@ -339,3 +339,10 @@ B("r6-token-column-prefix", "C04", "C04-R2", (AGG, "        text = ctx.Module_do
 B("r6-symlinks-listed", "C14", "C14-R11", (INIT, "            if not settings.input.follow_symlinks:\n                for subdir in copy.copy(subdirs):\n                    if os.path.islink(os.path.join(root, subdir)):\n                        subdirs.remove(subdir)\n", ""))
 B("r6-symlinks-pruned-when-followed", "C14", "C14-R11", (INIT, "            if not settings.input.follow_symlinks:\n                for subdir in copy.copy(subdirs):", "            if settings.input.follow_symlinks:\n                for subdir in copy.copy(subdirs):"))
 G("r6-symlinks-slice-filter", ["C13", "C14", "C15", "C17", "C18"], (INIT, "                for subdir in copy.copy(subdirs):\n                    if os.path.islink(os.path.join(root, subdir)):\n                        subdirs.remove(subdir)\n", "                subdirs[:] = [d for d in subdirs if not os.path.islink(os.path.join(root, d))]\n"))
+G("r6-positional-renamed", ["C19", "C16", "C06"], (INIT, '        "files",\n', '        "inputs",\n'), (INIT, "for input_file in args.files:", "for input_file in args.inputs:"))
+B("r6-inputs-globbed", "C19", "C19-R8", (INIT, "    for input_file in args.files:\n", "    import glob\n    for input_file in [f for a in args.files for f in (glob.glob(a) if glob.has_magic(a) else [a])]:\n"))
+G("r6-writer-settings-positional", ["C16", "C12", "C20"], (DOC, "RSTWriter(title, settings=settings)", "RSTWriter(title, 0, settings)"))
+B("r6-writer-without-settings", "C16", "C16-R10", (DOC, "RSTWriter(title, settings=settings)", "RSTWriter(title)"))
+G("r6-write-local-text", ["C01", "C18", "C20"], (RW, "                f.write(str(self))", "                rendered = str(self)\n                f.write(rendered)"))
+B("r6-write-stripped", "C01", "C01-R12", (RW, "                f.write(str(self))", "                f.write(str(self).strip() + \"\\n\")"))
+B("r6-pool-map", "C06", "C06-R13", (INIT, "    for input_file in args.files:\n        # Process all files specified on command line\n        document(input_file, settings_obj)", "    import concurrent.futures\n    with concurrent.futures.ThreadPoolExecutor() as pool:\n        for input_file in args.files:\n            pool.submit(document, input_file, settings_obj)"))
